@@ -121,6 +121,11 @@ structure Prog where
   resources : Array String
   compat : List (Nat × List Tag)
   canon : Array Nat
+  /-- `function_param_compatibility`: per function id, the tags its parameter type accepts
+      (consulted by `check_message_compatible` when a select scans the mailbox) -/
+  fparam : Array (List Tag) := #[]
+  /-- `builtin_param_compatibility` -/
+  bparam : Array (List Tag) := #[]
   deriving Repr, Inhabited
 
 /-- `check_type_compatible`: `type_compatibility.get(t).map(|s| s.contains(tag)).unwrap_or(false)`. -/
@@ -128,6 +133,19 @@ def Prog.isCompat (P : Prog) (t : Nat) (c : Tag) : Bool :=
   match P.compat.lookup t with
   | some row => row.contains c
   | none => false
+
+/-- `check_message_compatible` for a function source:
+    `function_param_compatibility.get(f).map(|s| s.contains(tag)).unwrap_or(true)`. -/
+def Prog.msgCompatFn (P : Prog) (f : Nat) (c : Tag) : Bool :=
+  match P.fparam[f]? with
+  | some row => row.contains c
+  | none => true
+
+/-- `check_message_compatible` for a builtin source. -/
+def Prog.msgCompatBuiltin (P : Prog) (b : Nat) (c : Tag) : Bool :=
+  match P.bparam[b]? with
+  | some row => row.contains c
+  | none => true
 
 /-- `Executor::canonical_tuple`: `canonical_tuples.get(id).copied().unwrap_or(id)`. -/
 def Prog.canonOf (P : Prog) (id : Nat) : Nat := (P.canon[id]?).getD id
@@ -242,6 +260,12 @@ structure IsRenaming (ρ : Ren) (P P' : Prog) (e e' : Nat) : Prop where
       reachable function tests against and every tag a reachable value can carry -/
   compat : ∀ f f' F, ρ.fn.get f = some f' → P.fns[f]? = some F → ∀ t, t ∈ isTypeOps F.instrs →
     ∀ t', ρ.type.get t = some t' → ∀ c c', renameTag ρ c = some c' → P.isCompat t c = P'.isCompat t' c'
+  /-- what a select's mailbox scan consults (`check_message_compatible`): which messages a receive
+      function / builtin accepts — F13 lives here for typed receives of process values -/
+  fparam : ∀ f f', ρ.fn.get f = some f' → ∀ c c', renameTag ρ c = some c' →
+    P.msgCompatFn f c = P'.msgCompatFn f' c'
+  bparam : ∀ b b', ρ.builtin.get b = some b' → ∀ c c', renameTag ρ c = some c' →
+    P.msgCompatBuiltin b c = P'.msgCompatBuiltin b' c'
   /-- what `Equal` consults: tuple ids are compared through `canonical_tuples` -/
   canon : ∀ a a' b b', ρ.tuple.get a = some a' → ρ.tuple.get b = some b' →
     (P.canonOf a = P.canonOf b ↔ P'.canonOf a' = P'.canonOf b')
@@ -314,6 +338,12 @@ def compatFnOK (ρ : Ren) (P P' : Prog) (tags : List (Tag × Tag)) (p : Nat × N
       | none => true)
   | none => true
 
+def fparamOK (P P' : Prog) (tags : List (Tag × Tag)) (p : Nat × Nat) : Bool :=
+  tags.all (fun cc => P.msgCompatFn p.1 cc.1 == P'.msgCompatFn p.2 cc.2)
+
+def bparamOK (P P' : Prog) (tags : List (Tag × Tag)) (p : Nat × Nat) : Bool :=
+  tags.all (fun cc => P.msgCompatBuiltin p.1 cc.1 == P'.msgCompatBuiltin p.2 cc.2)
+
 def canonOK (ρ : Ren) (P P' : Prog) : Bool :=
   ρ.tuple.all (fun a => ρ.tuple.all (fun b =>
     (P.canonOf a.1 == P.canonOf b.1) == (P'.canonOf a.2 == P'.canonOf b.2)))
@@ -335,6 +365,8 @@ def checks (ρ : Ren) (P P' : Prog) (e e' : Nat) : List (String × Bool) :=
     ("types", ρ.type.all (typeOK ρ P P')),
     ("resources", ρ.resource.all (resourceOK P P')),
     ("compat", ρ.fn.all (compatFnOK ρ P P' (tagPairs ρ))),
+    ("fparam", ρ.fn.all (fparamOK P P' (tagPairs ρ))),
+    ("bparam", ρ.builtin.all (bparamOK P P' (tagPairs ρ))),
     ("canon", canonOK ρ P P') ]
 
 def validateB (ρ : Ren) (P P' : Prog) (e e' : Nat) : Bool := (checks ρ P P' e e').all (·.2)
